@@ -158,6 +158,10 @@ impl App {
         }
 
         let script = self.script.clone();
+        if let Some(p) = script.pre_prompt {
+            cli.set_prompt(PROMPTS[p]);
+            self.handler_set_prompt = Some(p);
+        }
         if let (Some(p), true) = (script.prompt, script.prompt_first) {
             cli.set_prompt(PROMPTS[p]);
             self.handler_set_prompt = Some(p);
@@ -227,6 +231,10 @@ impl App {
 
     fn finish_typed(&mut self, cli: &mut CliHandle<'_, Sink, SimErr>, d: Dispatch) -> Result<(), SimErr> {
         let script = self.script.clone();
+        if let Some(p) = script.pre_prompt {
+            cli.set_prompt(PROMPTS[p]);
+            self.handler_set_prompt = Some(p);
+        }
         if let (Some(p), true) = (script.prompt, script.prompt_first) {
             cli.set_prompt(PROMPTS[p]);
             self.handler_set_prompt = Some(p);
